@@ -352,8 +352,13 @@ class ProtocolMonitor(Monitor):
                         if strict is None and self._real(r, o, s):  # most recent *real* pulse sharing a target
                             strict = s["tf"] + min(falls)
                         if s["kind"] == "pulse":
-                            # (behind zero-amplitude slots the last driven pulse may still be ramping down: the
-                            #  scheduler may wait for it too -> upper end of the admissible interval)
+                            # Behind zero-amplitude constant-detuning slots ("detuned delays" in the scheduler's own
+                            # vocabulary, whether EOM idle periods or added by the user) the most recent *driven*
+                            # pulse may still be ramping down: it is the most recent pulse in that vocabulary and
+                            # has to be waited for as well.
+                            if strict is not None and s["tf"] + min(falls) > strict:
+                                self.ctx.count("conflict_bound_from_pulse_behind_detuned_delay")
+                            strict = max(strict or 0, s["tf"] + min(falls))
                             break
                 if strict is not None:
                     C_lo = strict if C_lo is None else max(C_lo, strict)
@@ -376,9 +381,17 @@ class ProtocolMonitor(Monitor):
             cpd = bool(op.get("cpd"))
             if q["phase"] != pslot["phase"]:
                 P_hi = q["tf"] + max(falls) + x_hi
-                if dphi > 1e-9 and not cpd and not zero_between:
+                # (with correct_phase_drift the phase compared is the one the pulse finally carries: whenever it
+                #  differs from the previous pulse's the buffer is due, however the difference came about)
+                if dphi > 1e-9 and not zero_between:
                     P_lo = q["tf"] + min(falls) + x_lo
                     gap_req = min(falls) + x_lo
+                    if cpd:
+                        self.ctx.count("phase_jump_pairs_with_drift_correction")
+                        if abs((q["phase"] - float(op.get("phase", pslot["phase"])) + np.pi) % (2 * np.pi) - np.pi) <= 1e-9:
+                            self.ctx.count("phase_differs_only_by_drift")
+                            if t0 == q["tf"]:  # all of the drift accrued while waiting for another channel / barrier
+                                self.ctx.count("phase_differs_only_by_drift_during_wait")
             elif cpd:
                 P_hi = q["tf"] + max(falls) + x_hi
         lo = sched.start_time(t0, [B] + [x for x in (C_lo, P_lo) if x is not None], clk, mn)
